@@ -136,3 +136,10 @@ class GopherRequestHandler(socketserver.StreamRequestHandler):
                 # traceback.print_exc(file = self.wfile)
                 traceback.print_exc()
             GopherExceptions.log(e, protohandler, None)
+        finally:
+            # The protocol and its handler reference each other.  Drop the
+            # protocol's side now so that files held by the handler (ZIP
+            # archives and their index cache) are closed when the request
+            # ends instead of whenever the cyclic garbage collector runs.
+            if protohandler is not None:
+                protohandler.handler = None
